@@ -9,5 +9,6 @@ CONSTANTS
   Offs <- OffsT
   Needles <- NeedlesQ
   Fns <- FnsAll
+  Spell <- NoSpell
 INVARIANT Emit
 CHECK_DEADLOCK FALSE
